@@ -32,7 +32,7 @@ from harness import common as C
 META = {
     "id": "C10",
     "technique": "Coq proof (set-iteration oracle model of variable promotion; sorted() sites; inventory of set iterations and module state regenerated from the source by an ast walker) + extracted-model correspondence with parse()+emit() and with _promote_branch_decls under dictated iteration orders + sha256 oracle across PYTHONHASHSEED subprocesses / dictated set iteration orders / repeated / interleaved transpilations",
-    "level_text": "Theorems C10_* (coq/Props/C10.v): sorted() sites are order independent; promotion is independent of the set-iteration oracle for constructs (and whole programs of the modelled fragment) whose branches each contribute at most one not-yet-recorded new name, and refuted beyond (C10_promotion_order_refuted: the output order does depend on the oracle - known finding); only the ORDER can vary (C10_result_is_permutation); every set iteration found in the current parser.py/emitter.py by the translator is sorted, order-insensitive or modelled (C10_sites_accounted) and no function mutates module-level state (C10_no_module_state). The model is run against the real parse()+emit() skeleton and against _promote_branch_decls with dictated orders; the property itself is tested by sha256 across hash seeds, processes, repetitions and interleavings.",
+    "level_text": "Theorems C10_* (coq/Props/C10.v): sorted() sites are order independent; promotion is independent of the set-iteration oracle for constructs (and whole programs of the modelled fragment, C10_partial) whose branches each contribute at most one not-yet-recorded new name, and refuted beyond (C10_promotion_order_refuted, C10_two_names_in_a_branch_refuted: the output order does depend on the oracle - known finding); being inside the guard does not depend on the oracle; only the ORDER can vary (C10_result_is_permutation); the candidate repair (sorted() at the four sites) is order independent without guard and conservative inside it; the rank oracles used by the harness are permutations and reach every order; every set iteration found in the current parser.py/emitter.py by the translator is sorted, order-insensitive or modelled (C10_sites_accounted), no function mutates module-level state (C10_no_module_state), only pure modules are imported and no hash/id/open/eval... is used (C10_imports_are_pure, C10_no_ambient_builtins). The model is run against the real parse()+emit() skeleton and against _promote_branch_decls with dictated orders; the property itself is tested by sha256 across hash seeds, dictated set orders, other CPython builds, processes, repetitions and interleavings.",
     "level_note": "Trusted: Coq kernel, translator harness/gen/setsites.py (syntactic, fail-closed ast walker), extraction, OCaml driver, CPython's PYTHONHASHSEED as the source of set-order variation. CPython set internals are over-approximated by an arbitrary permutation oracle; absence of module-level state is shown statically for the two transpiler files (ast walk) and by observation (repeated / interleaved transpilations), not by proof about CPython.",
     "design_ref": "DESIGN.md section 4 C10, Appendix B.1, B.3",
 }
@@ -1189,7 +1189,7 @@ def run(ctx: C.Ctx):
         "unmodelled": ["CPython set/dict internals (over-approximated by an arbitrary permutation per construct)",
                        "_promotion_cpp_types staleness across scopes (generated names are type-stable except in flat if/try templates)",
                        "everything of the translation except declarations and block structure (expression text, devices) - covered by the sha256 oracle only",
-                       "absence of module-level state: static ast inventory + observation, no proof about CPython",
+                       "absence of module-level state / ambient inputs: static ast inventory (module-level bindings mutated by name, mutable defaults, cache decorators, imports, hash/id/open/eval...) + observation; state reached only through aliases (e.g. a shallow copy of a module-level dict) is found by the session oracle only",
                        "platform differences other than hash seeds (one CPython build here)"],
         "trusted_base": C.COMMON_TRUSTED + ["harness/gen/setsites.py (syntactic set-kind inference over parser.py/emitter.py, fail-closed)",
                                             "harness/impl/c10_impl.py (runs parse()+emit(); OrderedNames dictates the iteration order of `var_declared - base`; AdvSet dictates the iteration order of every set built through the name `set` in parser.py/emitter.py - set displays/comprehensions keep CPython's order)",
